@@ -16,6 +16,7 @@ package ord
 //
 //@ lemma seqOrdLaws[T any](o fp.Ord[T], a, b, c fp.Seq[T])
 //@   prop C10
+//@   option lockbudget=90
 //@   requires veriflaws.OrdCore(o)
 //@   ensures !Seq(o).Less(a, a)
 //@   tag irreflexive
@@ -28,6 +29,7 @@ package ord
 //
 //@ lemma seqOrdPrefix[T any](o fp.Ord[T], a, b fp.Seq[T])
 //@   prop C10
+//@   option lockbudget=90
 //@   requires veriflaws.OrdCore(o)
 //@   requires len(a) < len(b) && (forall j int :: 0 <= j && j < len(a) ==> o.Eqv(a[j], b[j]))
 //@   ensures Seq(o).Less(a, b) && !Seq(o).Less(b, a)
@@ -35,6 +37,7 @@ package ord
 //
 //@ lemma seqOrdFirstDifference[T any](o fp.Ord[T], a, b fp.Seq[T], k int)
 //@   prop C10
+//@   option lockbudget=90
 //@   requires veriflaws.OrdCore(o)
 //@   requires 0 <= k && k < len(a) && k < len(b) && (forall j int :: 0 <= j && j < k ==> o.Eqv(a[j], b[j]))
 //@   ensures o.Less(a[k], b[k]) ==> Seq(o).Less(a, b)
